@@ -12,6 +12,11 @@ def layouts(x):
     if x.ndim >= 2:
         out.append(("fortran", numpy.asfortranarray(x)))
         out.append(("transposed_view", numpy.ascontiguousarray(numpy.swapaxes(x, -1, -2)).swapaxes(-1, -2)))
+    if x.ndim >= 3:
+        # leading (batch) axes stored in another order: a view whose first two axes are swapped in memory
+        out.append(("leading_axes_swapped_view", numpy.ascontiguousarray(numpy.swapaxes(x, 0, 1)).swapaxes(0, 1)))
+        out.append(("first_axis_last_in_memory_view", numpy.ascontiguousarray(numpy.moveaxis(x, 0, -1)).transpose(
+            (x.ndim - 1,) + tuple(range(x.ndim - 1)))))
     big = numpy.zeros(tuple(2 * s for s in x.shape), dtype=x.dtype)
     sl = tuple(slice(None, None, 2) for _ in x.shape)
     big[sl] = x
